@@ -1,0 +1,15 @@
+//go:build verif
+
+package metric
+
+// VerifHook is a verification hook (build tag "verif" only): when set, it is called at the
+// entry of every decodeOne with the call site, the receiver and the token. The conformance
+// harness uses it to observe per-token decoding steps and, by blocking in it, to replay a
+// given interleaving of concurrent decodes deterministically.
+var VerifHook func(site string, recv any, arg string)
+
+func verifTrace(site string, recv any, arg string) {
+	if h := VerifHook; h != nil {
+		h(site, recv, arg)
+	}
+}
